@@ -29,7 +29,6 @@ FINDINGS = {
     "bind-target-sibling": "C01-bind-target-sibling",
     "not-of-error": "C01-not-of-error",
     "bind-arg-unbound": "C01-bind-arg-unbound",
-    "empty-sum": "C01-empty-sum-negative-zero",
 }
 
 
@@ -103,10 +102,10 @@ def evaluate(ctx, binpath, cases, stream, coq=True, known_ok=None, env=None):
             c["model"] = None
             try:
                 lg, ph = L.jlop(im["logical"]), L.jpop(im["physical"])
-                exprs.append("(spec_run %s %s, (classify_run %s, coverage_run %s %s), Some (plan_run %s %s %s, model_pattern_run %s %s %s))" % (ds, qq, qq, ds, qq, qq, lg, ph, ds, qq, ph))
+                exprs.append("(spec_run %s %s, (classify_run %s, coverage_run %s %s, syntactic_run %s %s), Some (plan_run %s %s %s, model_pattern_run %s %s %s))" % (ds, qq, qq, ds, qq, ds, qq, qq, lg, ph, ds, qq, ph))
             except (KeyError, TypeError, L.Unsupported) as ex:
                 c["model"] = "no plan to model: %s" % (ex,)
-                exprs.append("(spec_run %s %s, (classify_run %s, coverage_run %s %s), @None ((bool * bool) * list mu))" % (ds, qq, qq, ds, qq))
+                exprs.append("(spec_run %s %s, (classify_run %s, coverage_run %s %s, syntactic_run %s %s), @None ((bool * bool) * list mu))" % (ds, qq, qq, ds, qq, ds, qq))
         ctx.log("%s: implementation done, evaluating %d cases in Coq" % (stream, len(exprs)))
         coqv = run_model_retry(ctx, exprs)
         ctx.log("%s: Coq evaluation done" % stream)
@@ -121,7 +120,13 @@ def evaluate(ctx, binpath, cases, stream, coq=True, known_ok=None, env=None):
                 ctx.broken("correspondence", stream, "Coq Spec evaluation failed: %s" % (cv[1],), {"query": c["query"]})
                 continue
             cspec = L.from_coq_answer(cv[:2])        # Coq prints ((cols, rows), x, opt) as the flat tuple (cols, rows, x, opt)
-            ccodes, cws, (cfrag, cagree) = cv[2]
+            ccodes, cws, (cfrag, cagree), (cnoerr, ctyped) = cv[2]
+            c["syntactic"] = bool(cfrag and cnoerr and ctyped)
+            if c["syntactic"] and not cagree:
+                ctx.broken("correspondence", stream + ":classifier", "a case satisfies the syntactic hypotheses of C01_pattern_syntactic but not `agree` (contradicts C01_agree_syntactic)",
+                           {"q": c["q"], "query": c["query"]})
+            if cnoerr and (set(ccodes) & {4, 5}):
+                ctx.broken("correspondence", stream + ":classifier", "noerr holds for a query the classifier puts in class 4/5", {"q": c["q"], "query": c["query"]})
             c["coq_classes"] = (set(CLASS_CODE[k] for k in ccodes), cws)
             c["in_theorem"] = bool(cfrag and cagree)
             cv = (None, cv[3])
@@ -158,12 +163,13 @@ def evaluate(ctx, binpath, cases, stream, coq=True, known_ok=None, env=None):
                 ctx.broken("correspondence", stream + ":classifier", "the Python classifier of the known classes disagrees with coq/Sparql/Classes.v",
                            {"q": q, "query": c["query"], "coq": [sorted(c["coq_classes"][0]), c["coq_classes"][1]], "python": [sorted(classes), wellscoped]})
                 classes, wellscoped = c["coq_classes"]          # the Coq classifier decides
+            if c.get("syntactic"):
+                st["inside_hypotheses_of_C01_pattern_syntactic"] = st.get("inside_hypotheses_of_C01_pattern_syntactic", 0) + 1
             if c.get("in_theorem"):
                 st["inside_hypotheses_of_C01_pattern"] = st.get("inside_hypotheses_of_C01_pattern", 0) + 1
                 if classes & {"subselect-in-graph-var", "undef-filter-sibling", "bind-target-sibling"}:
                     ctx.broken("correspondence", stream + ":classifier", "a case inside a scoping class satisfies the hypotheses of C01_pattern",
                                {"q": q, "query": c["query"], "classes": sorted(classes)})
-        classes = classes | L.data_classes(c["ds"], q)
         if not wellscoped:
             st["not_wellscoped_skipped"] = st.get("not_wellscoped_skipped", 0) + 1   # outside the property's quantifier
             continue
@@ -236,7 +242,6 @@ def replay_known(ctx, binpath):
         rows = im.get("query", {}).get("rows")
         bad = "no rows" if rows is None else L.check_answer(q, spec, rows)
         cls, _ = L.classify(q)
-        cls = cls | L.data_classes(ds, q)
         if k["id"] not in [FINDINGS.get(x) for x in cls]:
             ctx.broken("correspondence", "known-finding-replay", "the witness of %s is not inside its own class" % k["id"], w)
         if bad:
@@ -279,13 +284,20 @@ def run(ctx):
             "Coq 8.16.1 kernel; vm_compute for running the Spec and the model",
             "hand-written Gallina model coq/Sparql/{Lowering,Engine}.v of utils.rs / engine.rs / execute_query.rs::finalize_select",
             "correspondence check: harness/src/bin/c01.rs (public API only), checks/c01.py + c01_lib.py (generators, printer, comparison of observables)",
-            "terms are their lexical strings (the dictionary is an injective map, C15); f64 modelled by Z on the generated integers; aggregate cells compared numerically (1e-9)",
+            "terms are their lexical strings (the dictionary is an injective map, C15); f64 modelled by Z on the generated integers; cells compared exactly, top-level AVG cells as numbers within 1e-9",
         ],
         assumptions=[
             "supported fragment as generated: ORDER BY keys are projected and range over homogeneous columns (all integers, or all IRIs, or all non-numeric strings); "
             "ordering comparisons and aggregates see integers only; a LIMIT inside a sub-select comes with an ORDER BY over all its projected variables; "
             "AVG only at the top level; dataset clauses name catalogued graphs",
             "queries the parser rejects are not C01's (counted per stream as rejected_by_parser)",
+            "NOT proved, covered by the correspondence with the executable Spec only (the _partial list of coq/Sparql/C01.v): "
+            "(p1) sub-selects with LIMIT, GROUP BY or aggregates, and the value of SUM / MIN / MAX / AVG at top level and in sub-selects; "
+            "(p2) FILTER / BIND inside GRAPH ?g that mention ?g while the group's own pattern binds ?g; "
+            "(p3) single-element groups nested twice or more around a lone BIND; "
+            "(p4) ORDER BY keys over columns that mix numbers with other terms or are partly unbound (comparator assumed transitive on the "
+            "key columns), ordering comparisons on non-integers.  Per stream, inside_hypotheses_of_C01_pattern(_syntactic) counts the cases "
+            "whose WHERE pattern is inside the hypotheses of the proved theorems.",
         ])
 
 
